@@ -30,7 +30,7 @@ STYLES = ['rand', 'zeros', 'small', 'big', 'rand']
 
 def _mix_jobs(seed, quick):
     jobs = []
-    n = 2 if quick else 10
+    n = 2 if quick else 8
     for k in range(n):
         s = seed * 1009 + k
         jobs += [('sn', s, 'S0', k % 2 == 1), ('sn', s + 500, 'S1', k % 2 == 0),
@@ -47,7 +47,7 @@ def _vkey(k):
 def run(ctx):
     torch = setup_torch()
     built = ctx.build()
-    npit = 40 if ctx.quick else 480
+    npit = 40 if ctx.quick else 360
     ctx.rule = ('(a) PIT: grammar architectures (1-D causal and 2-D; conv/depthwise/residual/concat/pool/flatten/linear heads) x all applicable built-in specs as a dictionary '
                 '+ one single specification; trainable mask parameters seeded with dyadic values (styles rand / with exact zeros / small / big); per network: value, autograd '
                 'gradient of every trainable element, +1 magnitude bump of every element, weight perturbation, other input batch + eval mode, one raised and one lowered '
